@@ -109,6 +109,7 @@ type Stats struct {
 	Reached                                      map[string]int
 	Findings                                     []Finding
 	ModelHits, Fallbacks                         int
+	CrossChecked                                 int // unsat verdicts re-asked of the second solver (thorough tier)
 	Unsupported                                  map[string]int
 	Samples                                      []Sample
 	MaxQuery                                     time.Duration
@@ -168,6 +169,7 @@ type Explorer struct {
 	cur        *pathState
 	Stats      Stats
 	MaxSteps   int
+	Cross      bool // re-ask unsat verdicts of a second solver
 	MaxDepth   int
 	TimeoutMs  int
 	SampleEach int // sample the model of every n-th completed path (0 = never)
@@ -356,6 +358,18 @@ func (e *Explorer) feasible(extra *Term) string {
 		e.alt.send(q)
 		res = e.alt.readLine()
 		e.lastZ = e.alt
+	}
+	if res == "unsat" && e.Cross && e.lastZ == e.z {
+		// thorough tier: an unsat verdict (a pruned direction, a proved assertion) of the primary
+		// solver is re-asked of the second one; a disagreement makes the run inconclusive
+		if e.alt == nil {
+			e.alt = startSolver("z3-new", nil)
+		}
+		e.alt.send(sb.String())
+		e.Stats.CrossChecked++
+		if r2 := e.alt.readLine(); r2 == "sat" {
+			e.unsupported("solver disagreement: z3 4.8.12 says unsat, z3 5.1.0 says sat")
+		}
 	}
 	d := time.Since(t0)
 	e.Stats.SolverTime += d
